@@ -251,6 +251,11 @@ def sibling_order_rule(ctx, helper, rule, hugr) -> None:
     for lp in [n for n in ast.walk(cf) if isinstance(n, (ast.For, ast.While))]:
         it = lp.iter if isinstance(lp, ast.For) else lp.test
         over_children = any((isinstance(x, ast.Attribute) and x.attr == "children") or (isinstance(x, ast.Call) and call_name(x) == "children") for x in ast.walk(it))
+        # (`for c in children[:1]`: at most the first child -- one at a time)
+        if isinstance(lp, ast.For) and isinstance(it, ast.Subscript) and isinstance(it.slice, ast.Slice) and it.slice.step is None \
+                and (it.slice.lower is None or (isinstance(it.slice.lower, ast.Constant) and it.slice.lower.value == 0)) \
+                and isinstance(it.slice.upper, ast.Constant) and it.slice.upper.value == 1:
+            over_children = False
         if over_children and any(call_name(c) in ("heappush", "heappushpop", "heapreplace") for b_ in lp.body for c in calls_in(b_)):
             bad = lp
     for c in calls_in(cf):
